@@ -9,7 +9,7 @@ from xknx import XKNX
 from xknx.exceptions import ManagementConnectionError
 from xknx.management import management as mgmt_mod
 from xknx.telegram import IndividualAddress, tpci as T
-from xknx.telegram.apci import DeviceDescriptorRead, DeviceDescriptorResponse, MemoryRead
+from xknx.telegram.apci import DeviceDescriptorRead, DeviceDescriptorResponse, MemoryRead, Restart
 
 from ..explore import Chooser, explore, finalize_states, replay_schedule
 from ..ref.cemi import encode_ldata
@@ -28,7 +28,7 @@ def frame(src: int, tpci_octet: int, apdu: bytes | None) -> bytes:
                         dst_is_group=False, src=src, dst=OWN, tpci_octet=tpci_octet, apdu=apdu)
 
 
-def make(n_requests: int, mixed: bool = False):
+def make(n_requests: int, mixed: bool = False, unacked_first: bool = False):
     """`mixed`: requests alternate between A_DeviceDescriptor_Read and A_Memory_Read, and the device's 'other type' answer to one
     is the right type for the other - a response rejected for its type must not be handed to a later request."""
 
@@ -101,6 +101,11 @@ def make(n_requests: int, mixed: bool = False):
 
                     def device_reacts(self, tg: Any) -> None:
                         cseq = tg.tpci.sequence_number
+                        if isinstance(tg.payload, Restart):
+                            # acknowledged, never answered
+                            events.append((round(loop.time(), 3), f"tx data({cseq}) A_Restart", "ack", "no-response"))
+                            loop.call_later(0.01, deliver, frame(DEV, 0xC2 | cseq << 2, None), f"T_ACK({cseq})")
+                            return
                         a = ch.choose("dev-ack", len(ACKS))
                         r = ch.choose("dev-resp", len(RESPS))
                         events.append((round(loop.time(), 3), f"tx data({cseq})", ACKS[a], RESPS[r]))
@@ -155,6 +160,12 @@ def make(n_requests: int, mixed: bool = False):
                         results.append(("connect", type(exc).__name__))
                         return
                     conn_box.append(conn)
+                    if unacked_first:
+                        # a command sent without waiting for its T_ACK (as dm_restart does with A_Restart) is numbered like any other
+                        try:
+                            await conn.send_data(Restart(), wait_for_ack=False)
+                        except ManagementConnectionError as exc:
+                            results.append(("send-unacked", type(exc).__name__))
                     for i in range(n_requests):
                         t0 = loop.time()
                         try:
@@ -238,7 +249,7 @@ SCENARIOS = {"p2p": make}
 def run(ctx: Ctx) -> None:
     bound = 4 if ctx.thorough else 2
     ctx.rule = (
-        f"real Management + P2PConnection over a fake cEMI layer (L_Data.con immediate): connect, 1-3 requests (A_DeviceDescriptor_Read; also alternating with A_Memory_Read so that an answer of the wrong type for one request has the right type for the next), disconnect; for every numbered data frame the simulated device "
+        f"real Management + P2PConnection over a fake cEMI layer (L_Data.con immediate): connect, 1-3 requests (A_DeviceDescriptor_Read; also alternating with A_Memory_Read so that an answer of the wrong type for one request has the right type for the next; also preceded by an A_Restart sent with wait_for_ack=False), disconnect; for every numbered data frame the simulated device "
         f"chooses an acknowledgement from {ACKS} and a reaction from {RESPS} (frames delivered through the real handle_raw_cemi, ack and response in the same loop iteration by default); EVERY schedule "
         f"with <= {bound} deviations, plus a 17-request default run (number wrap). Per received frame: T_ACK sent iff open connection and expected/preceding number, acceptance iff expected number and "
         "no unconsumed response; per request: expected type, consecutive response numbers, each response once, ManagementConnectionError within 3+3+6 s; outgoing numbers +1 mod 16, repetition reuses its number"
@@ -249,6 +260,7 @@ def run(ctx: Ctx) -> None:
         explore(ctx, __name__, "p2p", (n,), bound=bound)
     explore(ctx, __name__, "p2p", (2, True), bound=bound)
     explore(ctx, __name__, "p2p", (3, True), bound=min(bound, 3))
+    explore(ctx, __name__, "p2p", (2, False, True), bound=min(bound, 2))   # an A_Restart sent without waiting for its acknowledgement comes first
     explore(ctx, __name__, "p2p", (17,), bound=0)
     finalize_states(ctx)
 
